@@ -411,10 +411,52 @@ def run_leaf(ctx, u, uo, ds, pg, n_rand):
         if errs:
             u.disagreements += 1
             if not oerr:
-                ctx.violation(sig=f"tie:{mk}/{orient}/{basek}:{errs[0].split(':')[0]}:{pred}",
+                ctx.violation(sig=f"tie:{mk}/{orient}/{basek}:{errs[0].split(':')[0].split('[')[0]}:{pred}",
                               what=f"model != implementation for Transformed({basek}, {orient} {mk}).log_prob at x={x!r} [{pred}]: " + "; ".join(errs[:3]),
                               case=case, found_input=False, unit=u.name, expected=dict(log_prob=mv, ddx=mgx), observed=dict(log_prob=float(v[i]), ddx=float(gx[i])),
                               broken="correspondence leaf-logprob-tie (Model/Expr.v terms vs the code)", reproducer=repro(ds, x))
+
+
+def run_methods(ctx, um, spec, n_rand):
+    """each method's TERM alone (leaky_inv_t, rqs_fwd_t, rqs_deriv_t, ...): value and d/dx vs jax.grad of the bijection method"""
+    l = L()
+    jax, jnp, W = l["jax"], l["jnp"], l["W"]
+    ds = dict(leaf=spec, inverted=False, base=None)
+    leaf = make_leaf(spec)
+    ud = W.unwrap(make_dist(ds))
+    mk, sc, xp, yp, dv = model_args(ds, ud)
+    cl = ctx.model([f"crit {mk} 0 0 {hexlist(sc)} {hexlist(xp)} {hexlist(yp)} {hexlist(dv)} {fhex(0.0)}"])[0]
+    crit = [] if cl == "-" else [fparse(t) for t in cl.split(",")]
+    lo, hi = (sc[3], sc[4]) if mk == "rqs" else (-4.0, 4.0)
+    xs = input_set(ctx, crit, lo - 1, hi + 1, n_rand)[:NP]
+    fns = [("fwd", lambda x: leaf.transform(x)), ("inv", lambda x: leaf.inverse(x)),
+           ("ldfwd", lambda x: leaf.transform_and_log_det(x)[1]), ("ldinv", lambda x: leaf.inverse_and_log_det(x)[1])]
+    if mk == "rqs":
+        fns.append(("deriv", lambda x: W.unwrap(leaf).derivative(x)))
+    for fname, f in fns:
+        v, g = jax.vmap(jax.value_and_grad(f))(jnp.asarray(pad(xs)))
+        v, g = np.asarray(v, dtype=float)[: len(xs)], np.asarray(g, dtype=float)[: len(xs)]
+        model = ctx.model([f"term {fname} {mk} {hexlist(sc)} {hexlist(xp)} {hexlist(yp)} {hexlist(dv)} {fhex(x)}" for x in xs])
+        for i, x in enumerate(xs):
+            t = model[i].split()
+            mv, mg = fparse(t[0]), fparse(t[1])
+            pred = pred_of(ds, x, sc)
+            um.count((sha_ds(ds), fname, fhex(x)), nontrivial=pred not in ("x-in-interval", "|x|<tanh(max_val)", "any") or cls(v[i]) != "fin",
+                     tag=f"{mk}.{fname}/{cls(v[i])}/grad-{cls(g[i])}")
+            thr = math.tanh(sc[0]) if fname in ("inv", "ldinv") else sc[0]
+            amb = mk == "leaky" and abs(abs(x) - thr) <= 4 * np.spacing(thr)
+            errs = []
+            if not close(mv, v[i], 1e-9) and not (amb and cls(mv) == cls(v[i])):
+                errs.append(f"value: model {mv!r} implementation {float(v[i])!r}")
+            if cls(mg) != cls(g[i]) or (cls(v[i]) == "fin" and not amb and not close(mg, g[i], 1e-6)):
+                errs.append(f"d/dx: model {mg!r} implementation {float(g[i])!r}")
+            if errs:
+                um.disagreements += 1
+                ctx.violation(sig=f"method:{mk}.{fname}:{errs[0].split(':')[0]}:{pred}",
+                              what=f"model term != implementation for {mk}.{fname} at x={x!r} [{pred}]: " + "; ".join(errs),
+                              case=dict(unit="method", leaf=spec, method=fname, x=fhex(x)), found_input=False, unit=um.name,
+                              expected=dict(value=mv, ddx=mg), observed=dict(value=float(v[i]), ddx=float(g[i])),
+                              broken=f"correspondence method-tie ({mk}.{fname} term of Model/Expr.v vs the code)")
 
 
 def sha_ds(ds):
@@ -611,6 +653,18 @@ def run(ctx):
                 run_leaf(ctx, u, uo, ds, pg=(spec["kind"] == "rqs" and (not ctx.quick or base is None)), n_rand=n_rand)
     ctx.notes.append(f"leaf tie+oracle {time.time() - t0:.1f}s")
     t0 = time.time()
+    um = ctx.unit("method-tie", "the term of each bijection METHOD alone (fwd/inv/log-dets/spline derivative: leaky_inv_t, rqs_fwd_t, rqs_inv_t, rqs_deriv_t, "
+                                "softplus_inv_t, ...) evaluated and differentiated by the extracted eval/vjp vs the method and jax.grad of it (un-jitted), same "
+                                "input sets and tolerances as leaf-logprob-tie")
+    seen_kinds = {}
+    for spec in specs:
+        kk = spec["kind"]
+        seen_kinds[kk] = seen_kinds.get(kk, 0) + 1
+        if ctx.quick and seen_kinds[kk] > (3 if kk == "rqs" else 1) or (ctx.quick and kk == "rqs" and seen_kinds[kk] == 2):
+            continue
+        run_methods(ctx, um, spec, n_rand)
+    ctx.notes.append(f"method tie {time.time() - t0:.1f}s")
+    t0 = time.time()
     run_flows(ctx)
     ctx.notes.append(f"flow oracle {time.time() - t0:.1f}s")
     ctx.assumptions += [
@@ -638,7 +692,7 @@ def replay(ctx, rep):
             mk, sc, xp, yp, dv = model_args(c["dist"], ud)
             t = ctx.model([lp_request(mk, c["dist"], sc, xp, yp, dv, x, 0)])[0].split()
             vv, gg, _ = impl_fields(ud, [x])
-            same = close(fparse(t[1]), vv[0], 1e-9) and cls(fparse(t[2])) == cls(gg[0])
+            same = close(fparse(t[1]), vv[0], 1e-9) and cls(fparse(t[2])) == cls(gg[0]) and (cls(vv[0]) != "fin" or close(fparse(t[2]), gg[0], 1e-6))
             print("model", fparse(t[1]), fparse(t[2]), "implementation", float(vv[0]), float(gg[0]), "agree" if same else "DISAGREE")
             ok = ok and same
         return ok
